@@ -331,9 +331,16 @@ impl Server {
             .graph()
             .get_block_references_to(key)
             .iter()
-            .map(|id| self.database.graph().get_container_document_ref_text(*id))
+            // one hint per referencing note: notes are told apart by their key, not their title
+            .map(|id| {
+                (
+                    self.database.graph().node(*id).node_key(),
+                    self.database.graph().get_container_document_ref_text(*id),
+                )
+            })
+            .unique_by(|(key, _)| key.clone())
+            .map(|(_, text)| text)
             .sorted()
-            .dedup()
             .map(|text| hint_at(&format!("↖{}", text), 0))
             .collect_vec()
     }
